@@ -61,10 +61,13 @@ theorem occStep_prov (n : Bytes) (b : Bool) (u : OccUse) (m : HMap) :
       cases valueFromBytes (encOf b) raw with
       | none => intro e he; exact .inl he
       | some w =>
-        intro e he
-        rcases mem_hinsert he with h1 | h1
-        · exact .inl h1
-        · subst h1; exact .inr ⟨b, raw, by simp⟩
+        simp only []
+        split
+        · intro e he; exact .inl he
+        · intro e he
+          rcases mem_hinsert he with h1 | h1
+          · exact .inl h1
+          · subst h1; exact .inr ⟨b, raw, by simp⟩
     | append raw =>
       simp only []
       cases valueFromBytes (encOf b) raw with
